@@ -29,6 +29,7 @@ int main(int argc, char **argv) {
     std::string line;
     while (std::getline(std::cin, line)) {
         std::vector<std::string> f = split_ws(line);
+        case_begin(f.empty() ? std::string("?") : f[0]);
         if (f.size() < 3) { printf("%s BAD\n", f.empty() ? "?" : f[0].c_str()); continue; }
         const std::string &id = f[0];
         bool constraint = f[1] == "1";
@@ -50,6 +51,7 @@ int main(int argc, char **argv) {
         }
         free(p);
         fflush(stdout);
+        case_end();
     }
     gr_seg_destroy(gseg);
     gr_face_destroy(face);
